@@ -32,8 +32,10 @@ RETS = {
     "std_result": dict(sig="-> std::result::Result<u32, CorpErr>", ty="std::result::Result<u32, CorpErr>", ok="Ok(V)", err="Err(CorpErr(V))"),
     "path_result": dict(sig="-> self::support::Result<u32>", ty="self::support::Result<u32>", ok="Ok(V)", err="Err(CorpErr(V))"),
     "alias": dict(sig="-> Outcome", ty="Outcome", ok="Ok(V)", err="Err(CorpErr(V))"),
+    # a path whose last segment is `Result` WITHOUT generic arguments (like std::fmt::Result / io-style crate aliases)
+    "bare_result": dict(sig="-> self::bare::Result", ty="self::bare::Result", ok="Ok(V)", err="Err(CorpErr(V))"),
 }
-for k in ("result", "std_result", "path_result", "alias"):
+for k in ("result", "std_result", "path_result", "alias", "bare_result"):
     RETS[k]["body"] = "LAST.store(v, Ordering::SeqCst); if msg.fail { Err(CorpErr(v)) } else { Ok(v) }"
 ATTRS = {"plain": "#[handler]", "result": "#[handler(result)]", "no_log": "#[handler(no_log)]",
          "both": "#[handler(result, no_log)]", "unknown": "#[handler(bogus)]"}
@@ -75,6 +77,7 @@ impl std::fmt::Display for CorpErr {{
     fn fmt(&self, f: &mut std::fmt::Formatter<'_>) -> std::fmt::Result {{ write!(f, "corp-err-{{}}", self.0) }}
 }}
 pub mod support {{ pub type Result<X> = std::result::Result<X, super::CorpErr>; }}
+pub mod bare {{ pub type Result = std::result::Result<u32, super::CorpErr>; }}
 pub type Outcome = Result<u32, CorpErr>;
 pub static LAST: AtomicU32 = AtomicU32::new(0);
 
